@@ -13,7 +13,7 @@ def call_event(b, r, d, nist, M, bitlen):
         h = Keccak(b=b, r=r, len=d)
         if not nist: h.duplexing = True
         out = h(M, bitlen) if bitlen is not None else h(M)
-        e['obs'] = B(out) if isinstance(out, (bytes, bytearray)) else [-1]
+        e['obs'] = B(out) if isinstance(out, bytes) else [-1]
     except Exception as ex: e['raised'] = type(ex).__name__
     return e
 
@@ -67,7 +67,7 @@ def run(ctx):
     def generic(op, fn, **kw):
         e = dict(op=op, raised='', obs=[]); e.update(kw)
         try:
-            out = fn(); e['obs'] = B(out) if isinstance(out, (bytes, bytearray)) else [-1]
+            out = fn(); e['obs'] = B(out) if isinstance(out, bytes) else [-1]
         except Exception as ex: e['raised'] = type(ex).__name__
         return e
     for n, obj in ((224, keccak.keccak_224), (256, keccak.keccak_256), (384, keccak.keccak_384), (512, keccak.keccak_512)):
@@ -132,6 +132,18 @@ def run(ctx):
             except Exception as ex: e['raised'] = type(ex).__name__
             seq.append(e)
         traces.append(dict(ev=seq)); ctx.mark(('refused call with rate', b, r0, r2))
+    # blank duplex calls around an explicit setrate(): the padded blank block belongs to the rate in force
+    for b, r1, r2 in ((200, 64, 40), (1600, 1088, 576), (25, 11, 7)):
+        h = Keccak(b=b, r=r1, len=r1); seq = []
+        for r_, M, L in ((r1, b'', 0), (r1, b'', 0), (r2, b'', 0), (r2, msg(rnd, 5, 0, 0), 5), (r1, b'', 0)):
+            if h.r != r_:
+                try: h.setrate(r_)
+                except Exception: pass
+            e = dict(op='duplex', b=b, r=r_, d=min(r_, 16), m=B(M), bitlen=L if L else -1, raised='', obs=[])
+            try: e['obs'] = B(h.duplex(M, L if L else None, min(r_, 16)))
+            except Exception as ex: e['raised'] = type(ex).__name__
+            seq.append(e)
+        traces.append(dict(ev=seq)); ctx.mark(('blank duplex around setrate', b, r1, r2))
     # positional construction Keccak(b, c): the second positional argument is the CAPACITY
     for b, c, dl in ((1600, 512, 256), (1600, 1024, 64), (200, 40, 64), (800, 256, 128), (25, 5, 13)):
         M = msg(rnd, 8 * 11, 0, 0); e = dict(op='call', b=b, r=b - c, d=dl, nist=True, m=B(M), bitlen=-1, raised='', obs=[])
